@@ -25,6 +25,16 @@
     [cache.setdefault(arguments, func(...))] evaluates the call of [func] first,
     [utils.py:184]).
 
+    A RESIZE MAY LAND WHILE A MEMOISED BODY RUNS (such a body can take long: it may wait
+    for the terminal's reply).  The operation [GetTscResize t] is a call of the
+    [terminal_size_cached] probe during whose body the terminal is resized to [t]: the
+    wrapper reads the terminal size ([ts = get_terminal_size()], [utils.py:278]), the
+    body — if the entry does not serve the call — reads the terminal at its START, then
+    the resize happens, then the body returns and the wrapper stores [(value, ts)],
+    [utils.py:280]: the entry is keyed by the size read BEFORE the body, i.e. the size
+    the value was computed for.  If the entry serves the call the body does not run and
+    no resize happens.
+
     Part 1 is the sequential state machine, part 2 the history-level specification
     (the property oracle: no caches, only the provenance of entries), part 3 the [cached]
     decorator as a concurrent system over [lib/Sched.v].
@@ -146,6 +156,8 @@ Inductive op :=
 | GetCellSize | GetCellRatio | GetColors (k : nat) | GetNameVersion | IsOnKitty
 | GetTsc    (* a probe function decorated with [terminal_size_cached] whose body
                reports the terminal's pixel size *)
+| GetTscResize (t : tsize)   (* the same call, with the terminal resized to [t] WHILE the
+                                body runs (after the body has looked at the terminal) *)
 (* the getters called while a fault is armed inside [query_terminal] (see the header) *)
 | GetCellSizeAbort | GetCellRatioAbort | GetColorsAbort (k : nat) | GetNameVersionAbort.
 
@@ -292,6 +304,24 @@ Definition get_tsc (s : state) : state * (Z * Z) :=
   | None => fill
   end.
 
+(** the same call when the terminal is resized to [t] while the body runs.  Statement by
+    statement, [utils.py:277-283]:
+      [ts = get_terminal_size()]             the key: the size BEFORE the body;
+      [if not cache or ts != cache[1]:]      a live entry: returned, the body does not run
+                                             (and nothing resizes the terminal);
+      [func(...)]                            the body reads the pixel size at its start,
+                                             THEN the terminal becomes [t], then it returns;
+      [cache = (<value>, ts)]                stored under the size the value was computed
+                                             for — NOT under the size the terminal has now. *)
+Definition get_tsc_resize (s : state) (t : tsize) : state * (Z * Z) :=
+  let ts := (cols (tm s), rows (tm s)) in
+  let v := (xpx (tm s), ypx (tm s)) in
+  let fill := (set_tm (set_tsc s (Some (v, ts)) (S (n_tsc s))) t, v) in
+  match tsc s with
+  | Some (v0, (c, r)) => if (cols (tm s) =? c) && (rows (tm s) =? r) then (s, v0) else fill
+  | None => fill
+  end.
+
 Definition clear_csc (s : state) : state := set_csc s zero_csc (n_cs s).
 
 Definition view_cs (cs : Z * Z) : list Z := if has0 cs then [0] else [1; fst cs; snd cs].
@@ -323,6 +353,7 @@ Definition step (e : tenv) (s : state) (o : op) : state * list Z :=
   | GetNameVersion => let (s', v) := get_nv e s in (s', view_nv v)
   | IsOnKitty => let (s', b) := get_kitty e s in (s', view_b b)
   | GetTsc => let (s', v) := get_tsc s in (s', view_ratio v)
+  | GetTscResize t => let (s', v) := get_tsc_resize s t in (s', view_ratio v)
   | GetCellSizeAbort => let (s', r) := get_cs_abort e s in (s', view_opt view_cs r)
   | GetCellRatioAbort => let (s', r) := get_ratio_abort e s in (s', view_opt view_ratio r)
   | GetColorsAbort k => let (s', r) := get_col_abort e s k in (s', view_opt view_col r)
@@ -450,6 +481,16 @@ Definition h_probe (h : hstate) : hstate * (Z * Z) :=
   if live then (h, fresh_tsc (h_tm h))
   else (hset_tsc h (Some (h_tm h)) (S (h_ntsc h)), fresh_tsc (h_tm h)).
 
+(** the probe called while a resize to [t] lands during its body: answered — like every
+    call — by a fresh computation for the terminal the call was made at; if no live entry
+    serves it, the body runs: the new entry's provenance is the terminal the body SAW
+    (the one at the start of the call), and the terminal is [t] afterwards *)
+Definition h_probe_resize (h : hstate) (t : tsize) : hstate * (Z * Z) :=
+  let live := match h_tsc h with Some t0 => same_cells t0 (h_tm h) | None => false end in
+  if live then (h, fresh_tsc (h_tm h))
+  else (hset_env (hset_tsc h (Some (h_tm h)) (S (h_ntsc h))) t (h_swap h) (h_qen h),
+        fresh_tsc (h_tm h)).
+
 (** *** Aborted computations, on the history alone.
 
     A call made with a fault armed raises iff it has to compute (no live entry serves
@@ -503,6 +544,7 @@ Definition hstep (e : tenv) (h : hstate) (o : op) : hstate * list Z :=
   | GetNameVersion => let (h', v) := h_name e h in (h', view_nv v)
   | IsOnKitty => let (h', v) := h_name e h in (h', view_b (is_kitty v))
   | GetTsc => let (h', v) := h_probe h in (h', view_ratio v)
+  | GetTscResize t => let (h', v) := h_probe_resize h t in (h', view_ratio v)
   | GetCellSizeAbort => let (h', r) := h_cell_abort e h in (h', view_opt view_cs r)
   | GetCellRatioAbort => let (h', r) := h_get_ratio_abort e h in (h', view_opt view_ratio r)
   | GetColorsAbort k => let (h', r) := h_colors_abort e h k in (h', view_opt view_col r)
@@ -535,7 +577,8 @@ Definition reads_cell (o : op) : bool :=
   | GetCellSizeAbort | GetCellRatioAbort => true
   | _ => false
   end.
-Definition is_tsc (o : op) : bool := match o with GetTsc => true | _ => false end.
+Definition is_tsc (o : op) : bool :=
+  match o with GetTsc | GetTscResize _ => true | _ => false end.
 
 Definition px_sameb (t0 t : tsize) : bool :=
   negb (same_cells t0 t) || ((xpx t0 =? xpx t) && (ypx t0 =? ypx t)).
@@ -554,7 +597,8 @@ Definition px_ok (e : tenv) (t0 : tsize) (ops : list op) : Prop := px_okb e (hin
 
 (** every terminal of the history has at least one cell *)
 Definition pos_size (t : tsize) : bool := (0 <? cols t) && (0 <? rows t).
-Definition op_pos (o : op) : bool := match o with Resize t => pos_size t | _ => true end.
+Definition op_pos (o : op) : bool :=
+  match o with Resize t | GetTscResize t => pos_size t | _ => true end.
 Definition wf_sizes (t0 : tsize) (ops : list op) : bool := pos_size t0 && forallb op_pos ops.
 
 (** the fresh answer to the getter [o] for terminal [t], swap setting [sw], under the
@@ -567,7 +611,7 @@ Definition fresh_answer (e : tenv) (t : tsize) (sw q : bool) (o : op) : list Z :
   | GetColors k => view_col (fresh_col e t sw q k)
   | GetNameVersion => view_nv (fresh_nv e t sw q)
   | IsOnKitty => view_b (is_kitty (fresh_nv e t sw q))   (* derived from a fresh getter call *)
-  | GetTsc => view_ratio (fresh_tsc t)
+  | GetTsc | GetTscResize _ => view_ratio (fresh_tsc t)
   | _ => []
   end.
 
@@ -583,7 +627,7 @@ Definition prov (h : hstate) (o : op) : bool :=
     ([get_cell_ratio] only in DYNAMIC mode: a FIXED ratio is a snapshot by definition) *)
 Definition is_getter (h : hstate) (o : op) : bool :=
   match o with
-  | GetCellSize | GetColors _ | GetNameVersion | IsOnKitty | GetTsc => true
+  | GetCellSize | GetColors _ | GetNameVersion | IsOnKitty | GetTsc | GetTscResize _ => true
   | GetCellRatio => match h_ratio h with Dynamic => true | Fixed _ => false end
   | _ => false
   end.
